@@ -108,8 +108,11 @@ def slice_pop(eng, rows_date=False, cols_date=False, shape="new", n=2, ins=True)
             Obs("population_counts_moe", part.population_counts_moe, moe)]
 
 
-def strand_pop(eng, date=False, shape="new", n=3):
+def strand_pop(eng, date=False, shape="new", n=3, two_diffs=False):
     ins = [D("d", [3], [1]), S("s12", [1, 2], anchor="top")]
+    if two_diffs:
+        # a sum between two differences, displayed out of definition order
+        ins = [D("d3-1", [3], [1]), S("s12", [1, 2], anchor="top"), D("d2-13", [2], [1, 3], anchor=1)]
     w = CellWorld(eng, [("catdate" if date else "cat", "a", n, {"missing_at": (1,), "insertions": ins})])
     extra, f = filter_fields(eng, shape)
     P = eng.pyreal("P", lo=0)
@@ -150,6 +153,8 @@ def specs(tier):
         add("slice dates rows=%s cols=%s old filter" % (rd, cd), "slice_pop", dict(rows_date=rd, cols_date=cd, shape="old", n=n, ins=False))
     for shape in ("absent", "new", "old", "new_catdate"):
         add("strand, filter %s" % shape, "strand_pop", dict(shape=shape, n=n + 1))
+    add("strand with two differences and a sum", "strand_pop", dict(shape="new", n=3, two_diffs=True))
+    add("date strand with two differences and a sum", "strand_pop", dict(date=True, shape="new", n=3, two_diffs=True))
     add("date strand, filter new", "strand_pop", dict(date=True, shape="new", n=n + 1))
     add("date strand, filter old", "strand_pop", dict(date=True, shape="old", n=n + 1))
     return out
